@@ -29,6 +29,7 @@ type vScheduler struct {
 	threads []*vThread
 	cur     *vThread
 	spawned []func() // functions handed to vGo, turned into threads by the driver
+	filter  func(site string) bool // optional: which yield sites are scheduling points (nil = all)
 }
 
 var vS *vScheduler
@@ -40,6 +41,9 @@ func vYield(site string) {
 	}
 	t := s.cur
 	if t == nil {
+		return
+	}
+	if s.filter != nil && !s.filter(site) {
 		return
 	}
 	t.parked <- site
